@@ -663,7 +663,7 @@ func checkTermination(c *Ctx, scope []*ssa.Function) {
 				c.OK("C12.R3", key, pos, "variant: the loop-carried string becomes the part after its first separator (strictly shorter) or empty, and the loop runs only while it is non-empty")
 				continue
 			}
-			if FuncName(fn) == "rules.NewHostRule" && tokenizerLoop(c, u, s, l) {
+			if nhrFn := c.P.Func("rules", "NewHostRule"); nhrFn != nil && (fn == nhrFn || (c.P.IsNewHelper(fn) && inGroupOf(c.P, fn, nhrFn))) && tokenizerLoop(c, u, s, l) {
 				c.OK("C12.R3", key, pos, "declared variant: each iteration calls the tokenizer on the remainder, which is non-empty by the loop condition; the tokenizer's three forward scans store back a suffix starting after at least one consumed byte (scan agreement is decided by C18.R2/R3)")
 				continue
 			}
@@ -1154,7 +1154,7 @@ func tokenizerLoop(c *Ctx, u *U, s *Summary, l *Loop) bool {
 	for b := range l.Blocks {
 		for _, in := range b.Instrs {
 			if cl, ok := in.(*ssa.Call); ok {
-				if cal := cl.Call.StaticCallee(); cal != nil && c.P.IsLibFunc(cal) && cal == tokenizerRole(c.P, s.Fn) {
+				if cal := cl.Call.StaticCallee(); cal != nil && c.P.IsLibFunc(cal) && cal == tokenizerRole(c.P, c.P.Func("rules", "NewHostRule")) {
 					if s.RC[b] == u.bdd.And(s.RC[l.Header], cont) {
 						okCall = true
 					}
